@@ -76,8 +76,9 @@ class Recorder:
             out.append([S(sid), self.step_of(ch["time_last_tasked"]), self.pointed_target(sid, ch["boresight"])])
         return out
 
-    def tick_of_jd(self, jd) -> int:
-        return int(round((float(jd) - float(self.app.clock.julian_date_start)) * 86400.0))
+    def tick_of_jd(self, jd) -> float:
+        """Seconds from the scenario start (millisecond resolution: a Julian date resolves ~4e-5 s)."""
+        return round((float(jd) - float(self.app.clock.julian_date_start)) * 86400.0, 3)
 
     @staticmethod
     def _same_dv(m, dv):
@@ -87,7 +88,13 @@ class Recorder:
         return all(abs(float(a) - float(b)) <= 1e-12 for a, b in zip(m["dv"], dv))
 
     def event_id(self, etype, t0_tick, ident, dv=None):
-        cands = [m for m in self.events_meta if m["etype"] == etype and m["t0"] == t0_tick and m["ident"] == ident]
+        # times are compared in seconds with a tolerance of half a second (an event half a second off a whole second must
+        # not depend on which way two different roundings go); `t0f` is the configured offset in (fractional) seconds
+        cands = [m for m in self.events_meta if m["etype"] == etype and m["ident"] == ident
+                 and abs(float(m.get("t0f", m["t0"])) - float(t0_tick)) <= 0.5 + 1e-3]
+        if len(cands) > 1:      # prefer the closest in time
+            best = min(abs(float(m.get("t0f", m["t0"])) - float(t0_tick)) for m in cands)
+            cands = [m for m in cands if abs(float(m.get("t0f", m["t0"])) - float(t0_tick)) <= best + 1e-3]
         if len(cands) > 1:
             cands = [m for m in cands if self._same_dv(m, dv)] or cands
         if cands:
@@ -95,8 +102,7 @@ class Recorder:
         return f"unknown:{etype}:{t0_tick}:{ident}"
 
     def impulse_id(self, agent_id, sim_time, dv=None):
-        t = int(round(float(sim_time)))
-        return self.event_id("impulse", t, agent_id, dv)
+        return self.event_id("impulse", round(float(sim_time), 3), agent_id, dv)
 
     def bias_proj(self):
         out = []
